@@ -173,6 +173,9 @@ class SLedger:
     def crash(self, where, exc=None):
         self.calls.append(("crash", (f"{where}: {exc!r}",), {}))
 
+    def bounded_eval(self, *a, **k):
+        self.calls.append(("bounded_eval", a, k))
+
     def replay_into(self, run):
         for name, a, k in self.calls:
             getattr(run, name)(*a, **k)
@@ -207,3 +210,13 @@ _POOL_ONE = None
 
 def _pool_entry(case):
     return _POOL_ONE(case)
+
+
+def native_pass(run, oid, fn, replay, key, case):
+    """the same clauses evaluated once in floating point with the REAL kernels (labelled bounded): besides replaying the identities it decides what the
+    stubbed kernels cannot - that the frames of every local problem are orthonormal, so that the local standard eigen / evolution problem is the projected one"""
+    fired, detail = replay()
+    run.bounded_eval(oid, fn, key=key, nontrivial=True)
+    if fired:
+        run.violation(oid, fn, f"with the real kernels on float tensors: {str(detail.get('failed_clauses', detail))[:400]}", fields={"obligation": oid},
+                      replay={"case": case, "native": detail})
